@@ -118,6 +118,9 @@ Section KeyMelody.
 
   Definition km_rev_enum : list (Z * Z) := rev (enumerate dists).
 
+  (* default_event_label *)
+  Definition km_default_label : Z := note_range.
+
   (** ** events_to_label (with C08-fix-1) *)
   Definition km_initial_default (es : list Z) (p : Z) : option bool :=
     match py_nth dists (-1) with
